@@ -1,6 +1,7 @@
 """C10-C13, C17: format parser, rendering, integer/float text, sinks.
 Spec: Format.tla, NumText.tla (+ MC_Format); trace spec: TraceFormat.tla; executor: exec_format."""
 import json
+import os
 
 import vlib
 from runner import Check
@@ -146,8 +147,28 @@ class C13(FmtCheck):
     def jobs(self, tier, seed):
         e = vlib.build("exec_format")
         q = tier == "quick"
-        return sharded("c13-floats", e, ["--gen", "floats", "--count", "20000" if q else "500000", "--seed", str(seed)] + ([] if q else ["--heavy"]),
-                       8 if q else 48)
+        J = sharded("c13-floats", e, ["--gen", "floats", "--count", "20000" if q else "500000", "--seed", str(seed)] + ([] if q else ["--heavy"]),
+                    8 if q else 48)
+        # string_stream << float/double when the %g text arrives 2 bytes before .. 2 bytes after a capacity (256, 512, 1024):
+        # real stream objects with a history, decided by TraceStream.tla
+        import p_stream
+        cs = os.path.join(vlib.OUT, "sched", "stream-capedge-float-%d.txt" % os.getpid())
+        os.makedirs(os.path.dirname(cs), exist_ok=True)
+        p_stream.capacity_edge_schedule(cs, False, floats_only=True)
+        J.append(vlib.Job("c13-capedge", vlib.build("exec_stream"), ["--schedule", cs], "TraceStream"))
+        return J
+
+    def replay_jobs(self, rej):
+        if rej.get("spec") == "TraceStream":
+            import p_stream
+            return p_stream.StreamCheck().replay_jobs(rej)
+        return FmtCheck.replay_jobs(self, rej)
+
+    def describe(self, rej):
+        if rej.get("spec") == "TraceStream":
+            import p_stream
+            return p_stream.StreamCheck().describe(rej)
+        return FmtCheck.describe(self, rej)
 
 
 class C17(FmtCheck):
